@@ -7,6 +7,8 @@ from props import regpcommon as R
 ID = "C06"
 DRIVER = "drv_regp"
 HARNESS = "h_regp"
+QUICK_LEVEL = "thorough"      # the larger case set costs only seconds
+THOROUGH_SEEDS = 8
 GEN = [constants.gen]
 TIE = ['Ufw.Tie.Regp']
 RULE = ("{read, write} x {8, 16}-bit request semantics x {8, 16}-bit attached memory (matching and mismatching) x {serial, tcp} x every "
